@@ -190,10 +190,10 @@ def run(chk):
             chk.refuted("C16.J", "anchor-missing: Display for %s" % short, "")
             continue
         C = Container(facts, adt)
-        for L in (0, 1, 2, 3):
-            key = "%s display with %d terms" % (short, L)
+        for names in [["c%d" % j for j in range(L)] for L in (0, 1, 2, 3)] + [["c0", "c0"], ["c0", "c1", "c0"], ["c0", "c0", "c1"]]:
+            L = len(names)
+            key = "%s display with %d terms" % (short, L) if len(set(names)) == L else "%s display with repeated terms %s" % (short, names)
             try:
-                names = ["c%d" % j for j in range(L)]
                 st0 = State()
                 it = Interp(facts, max_paths=256)
                 install_stubs(it, facts, C.elem)
@@ -238,7 +238,7 @@ def run(chk):
                         for p_ in parts:
                             den = red(den, val(p_[1:-1]))
                         order = [p_[1:-1] for p_ in parts]
-                        if order != [nm for nm in names if nm in order]:
+                        if len(set(names)) == len(names) and order != [nm for nm in names if nm in order]:
                             v, d = REFUTED, "terms are printed out of order: %r" % txt
                             break
                     if den != obj:
